@@ -2,4 +2,4 @@
 # usage: lib/seedq.sh <PID> <M1|M2> <name> <checks> [extra seed.py args]   -- serialised through a lock, runs in background
 cd /verif
 pid=$1; m=$2; name=$3; checks=$4; shift 4
-( flock 9; python3 lib/seed.py "$pid" "$m" --name "$name" --checks "$checks" "$@" > /tmp/seed-$name.log 2>&1 ) 9>/tmp/seedq.lock &
+( flock 9; python3 lib/seed.py "$pid" "$m" --name "$name" --checks "$checks" "$@" > /tmp/seed-$name.log 2>&1 ) 9>/tmp/seedq2.lock &
